@@ -629,7 +629,37 @@ def rule_annex_whole(ctx: Ctx, rep: Report) -> None:
     rep.floor(rule, 2)
 
 
+def rule_p2wpkh_script_code(ctx: Ctx, rep: Report) -> None:
+    """C09.p2wpkh_script_code: BIP143's script code for a p2wpkh input is
+    `OP_DUP OP_HASH160 <20 bytes> OP_EQUALVERIFY OP_CHECKSIG`, whatever else the
+    psbt input carries; the witness script is the script code of a p2wsh input
+    and of no other. In `_witness_v0_script_code` the witness script is
+    answered only where the spent script is known *not* to be p2wpkh -- else a
+    stray PSBT_IN_WITNESS_SCRIPT on a p2wpkh input changes the digest, and the
+    psbt's sig_hash differs from the direct one."""
+    rule = "C09.p2wpkh_script_code"
+    fi = ctx.func("btclib.psbt.psbt._witness_v0_script_code")
+    g = ctx.cfg(fi)
+    n = 0
+    for r in own_nodes(fi.node):
+        if not (isinstance(r, ast.Return) and r.value is not None):
+            continue
+        n += 1
+        facts = {(str(t).replace(" ", ""), pol) for t, pol in g.facts_at_ast(r.value)}
+        is_ws = isinstance(r.value, ast.Attribute) and r.value.attr == "witness_script"
+        wpkh_false = any(t.startswith("is_p2wpkh(") and pol is False for t, pol in facts)
+        wpkh_true = any(t.startswith("is_p2wpkh(") and pol is True for t, pol in facts)
+        if is_ws:
+            rep.ob(rule, f"_witness_v0_script_code:return@{n}:witness_script", wpkh_false, fi.where(r), "the witness script is the script code only where the spent script is not p2wpkh" if wpkh_false else
+                   "the witness script is answered on a path where the spent script may be p2wpkh: a stray witness script replaces BIP143's p2pkh template in the digest")
+        else:
+            rep.ob(rule, f"_witness_v0_script_code:return@{n}:template", wpkh_true, fi.where(r), "the p2pkh template is answered for p2wpkh" if wpkh_true else f"`{norm(r)[:60]}` is answered outside the p2wpkh case")
+    rep.floor(rule, 2)
+
+
 RULES = [
+    ("C09.p2wpkh_script_code", rule_p2wpkh_script_code),
+
     ("C09.annex_whole", rule_annex_whole),
 
     ("C09.script_code_order", rule_script_code_order),
